@@ -110,3 +110,22 @@ add("C17", "model_checking",
     "Rate values and step sizes from the alphabets (||K||dt <= 0.25); rate matrices of "
     "dimension <= 4; sub-axes limited to stride <= 10 and start index <= 12.",
     "DESIGN.md §3 C17")
+add("C15", "model_checking",
+    "explicit-state search over call histories on shared real objects, with before/after input "
+    "comparison and a freshly built twin world as differential oracle",
+    "BFS over all sequences (depth 2 quick / 3 thorough) of a 22-26 entry menu: relaxation-tensor "
+    "construction (standard / time-dependent / secular Redfield, Foerster, combined "
+    "Redfield-Foerster with a coupling cut-off), propagate() on cached propagator objects per "
+    "theory with two initial states and refinement, free, state-vector, population and "
+    "hierarchical-equations propagation on cached propagators, evolution superoperator "
+    "calculate+apply, Redfield/Foerster rate matrices, absorption spectrum, initial states - all "
+    "on ONE shared aggregate/Hamiltonian/system-bath interaction/time axis/initial states. For the "
+    "last call of every history all observable inputs (Hamiltonian data, basis tag, protection, "
+    "remainder coupling, RWA, system-bath operators and correlation functions, time axis, initial "
+    "states, tensors and Hamiltonians held by propagators, Manager basis stack and units) are "
+    "compared before/after, and the result is compared (1e-10) with the same call made as the "
+    "first call on a freshly built twin world.",
+    "Dimer (quick) / trimer (thorough) with one bath parameter set; the step refinement of a "
+    "propagator is treated as a documented setting of that object; memoised integrals are not "
+    "inputs; exceptions are outside this property's quantifier.",
+    "DESIGN.md §3 C15")
